@@ -36,6 +36,10 @@ const (
 	// FaultCount: send downlink message K with its IE count raised by one — every length in the message still matches the octets
 	// present, only the list announces an IE that is not there: not a decodable NGAP message ("sequence truncated")
 	FaultCount = "count"
+	// FaultShrink: send downlink message K with the value of its LAST IE one octet shorter than its contents need — the IE length
+	// and the message length say so consistently — and the cut octet left behind the message in the datagram: not a decodable
+	// NGAP message for a decoder that keeps to the announced length of an open type
+	FaultShrink  = "shrink"
 	FaultOther   = "other"   // send a decodable NGAP message of a type the emulator never expects (Error Indication)
 	FaultCloseUL = "closeul" // close the association right after receiving uplink message K, answering nothing
 	// FaultSilent: from downlink message K on the peer neither answers nor closes. This is OUTSIDE the property's fault
@@ -61,7 +65,7 @@ func ParseFault(s string) (Fault, error) {
 		return Fault{}, fmt.Errorf("fault index %q", s[:i])
 	}
 	switch s[i+1:] {
-	case FaultClose, FaultGarbage, FaultTrunc, FaultOther, FaultCloseUL, FaultSilent, FaultBigGarbage, FaultCount:
+	case FaultClose, FaultGarbage, FaultTrunc, FaultOther, FaultCloseUL, FaultSilent, FaultBigGarbage, FaultCount, FaultShrink:
 		return Fault{Kind: s[i+1:], K: k}, nil
 	}
 	return Fault{}, fmt.Errorf("fault kind %q", s[i+1:])
@@ -529,6 +533,8 @@ func (r *runner) send(d dlMsg) bool {
 			out, m.Ngap, m.Nas = bytes.Repeat([]byte{0xff}, 3000), "?", ""
 		case FaultCount:
 			out, m.Ngap, m.Nas = countLie(d.bytes), "?", ""
+		case FaultShrink:
+			out, m.Ngap, m.Nas = shrinkLie(d.bytes), "?", ""
 		case FaultTrunc:
 			out, m.Ngap, m.Nas = d.bytes[:len(d.bytes)/2], "?", ""
 		case FaultOther:
@@ -564,6 +570,56 @@ func countLie(b []byte) []byte {
 	n++
 	out[off+1], out[off+2] = byte(n>>8), byte(n)
 	return out
+}
+
+func perLen(b []byte, off int) (n, size int, ok bool) {
+	if off >= len(b) {
+		return 0, 0, false
+	}
+	if b[off]&0x80 == 0 {
+		return int(b[off]), 1, true
+	}
+	if b[off]&0x40 == 0 && off+1 < len(b) {
+		return int(b[off]&0x3f)<<8 | int(b[off+1]), 2, true
+	}
+	return 0, 0, false
+}
+
+func perLenEnc(n int) []byte {
+	if n < 128 {
+		return []byte{byte(n)}
+	}
+	return []byte{0x80 | byte(n>>8), byte(n)}
+}
+
+// shrinkLie: see FaultShrink; ff ff ff for a message that does not have the usual layout
+func shrinkLie(b []byte) []byte {
+	bad := []byte{0xff, 0xff, 0xff}
+	L, ls, ok := perLen(b, 3)
+	if !ok || 3+ls+L != len(b) || L < 3 {
+		return bad
+	}
+	v := 3 + ls
+	count := int(b[v+1])<<8 | int(b[v+2])
+	off := v + 3
+	last, lastLen, lastLs := -1, 0, 0
+	for k := 0; k < count; k++ {
+		l, s2, ok2 := perLen(b, off+3)
+		if !ok2 || off+3+s2+l > len(b) {
+			return bad
+		}
+		last, lastLen, lastLs = off, l, s2
+		off += 3 + s2 + l
+	}
+	if last < 0 || lastLen == 0 || off != len(b) {
+		return bad
+	}
+	val := append([]byte{}, b[v:last+3]...)         // extension octet, count, the IEs before, id + criticality of the last
+	val = append(val, perLenEnc(lastLen-1)...)      // its length, one less
+	val = append(val, b[last+3+lastLs:len(b)-1]...) // its value without the last octet
+	out := append(append([]byte{}, b[:3]...), perLenEnc(len(val))...)
+	out = append(out, val...)
+	return append(out, b[len(b)-1]) // the cut octet, behind the message
 }
 
 // gone waits up to d for the emulator's end to disappear without consuming anything.
